@@ -63,12 +63,14 @@ class Transducer:
         if op["k"] not in ("Copy", "Move"):
             return None
         l = op["place"]["local"]
+        l0 = l
         for _ in range(6):
             if op["place"]["proj"] and l == op["place"]["local"]:
                 return None
             ds = b.defs().get(l, [])
             if len(ds) != 1 or ds[0][0] != "stmt":
-                return None
+                # a reborrow chain that ends at a call result / multi-definition local: that local is the target
+                return l if l != l0 else None
             rv = ds[0][3]
             if rv["k"] == "Ref":
                 pl = rv["place"]
